@@ -146,7 +146,7 @@ From ToughV Require Import Proofs.UrlP.
 Theorem C19_cached_target_served : forall (H : bytes -> N) fx cfg now rp tsrv n prefix outdir f w f' w' ti,
   save_target H fx cfg now rp tsrv n prefix outdir f w = (Ok tt, f', w') ->
   find_target n (rp_targets rp) = Some ti -> ti_len ti < u64max' ->
-  forallb (fun c => negb (is_empty c)) outdir = true ->
+  outdir <> [] -> forallb (fun c => negb (is_empty c)) outdir = true ->
   url_plain (if prefix then ti_hex ti ++ [46] ++ tn_resolved n else tn_resolved n) = true ->
   exists d,
     fs_fetch (fs_files f') outdir (if prefix then ti_hex ti ++ [46] ++ tn_resolved n else tn_resolved n) = FsFound d
